@@ -7,7 +7,7 @@ from .common import *
 POLL_PAT = (r"(^|[:<\s])((futures_core::)?Stream|(std|core)::future::Future|futures_core::Future)(>| as .*>)?::(poll_next|poll)$"
             r"|ReusableBoxRecvFuture::<.*>::poll$|ReusableBoxFuture::<.*>::poll$|ObservableState::<.*>::poll_update$")
 REARM_PAT = r"ReusableBoxRecvFuture::<.*>::set$|ReusableBoxFuture::<.*>::set$|ReusableBoxFuture::<.*>::try_set$"
-GATES = ("get_lock",)
+GATE_TY = r"^std::task::Poll<[\w:]*(ReadGuard|WriteGuard|MutexGuard)<"  # a future that only grants access (a lock acquisition), by its output type
 
 
 def is_poll_call(t):
@@ -102,6 +102,10 @@ def check_poll_fn(ctx, rule, f, sites):
             ctx.violated(rule.replace(".1", ".2"), f, "foreign-context:" + name, b.line_at((blk, 10 ** 6)),
                          "input `%s` is polled with `%s`, not with the caller's context: the caller's waker is not registered with that input" % (name, fmt(cxe, 4)))
     idx = {n: i for i, n in enumerate(inputs)}
+    gate_inputs = set()
+    for blk, t in sites:
+        if is_poll_call(t) and not t["dest"]["proj"] and re.search(GATE_TY, str(b.locals[t["dest"]["l"]]["ty"])):
+            gate_inputs.add(input_name(b, t))
     rearming_helpers = set()
     for blk, t in sites:
         if not is_poll_call(t):
@@ -226,7 +230,7 @@ def check_poll_fn(ctx, rule, f, sites):
                     continue
                 if t in ("U", "A") and any(tags[idx[g]] == "P" for g in gates[n]):
                     continue  # cannot be polled before its gate is ready; the gate's waker fires first
-                if t == "A" and (n in GATES or n in rearming_helpers):
+                if t == "A" and (n in gate_inputs or n in rearming_helpers):
                     continue  # re-armed gate: polled at the next invocation, which the event source's waker triggers
                 key = (n, t, loc)
                 if key in reported:
